@@ -191,7 +191,9 @@ func (d *disconnectHandler) handleGracePeriodExpired() {
 	defer d.mu.Unlock()
 
 	if d.election.connectionMonitor != nil {
-		if d.election.connectionMonitor.Status() != ConnectionStatusDisconnected {
+		// A closed connection never comes back: like "still disconnected" it must
+		// end the term when the grace period is over.
+		if st := d.election.connectionMonitor.Status(); st != ConnectionStatusDisconnected && st != ConnectionStatusClosed {
 			// Reconnected, don't demote
 			log := d.election.getLogger()
 			log.Info("connection_reconnected_before_grace_period",
